@@ -38,8 +38,11 @@ def history(rng, net, n, tos_pool=TOS_POOL, p_rand_tos=0.1):
                 if mm.state == MapperModel.ACTIVE:
                     src = mm.mapper
                     eth = mm.apparent
-                elif mm.state == MapperModel.IDLE and rng.random() < 0.9:
-                    # keep the model informative: mostly skip commands while idle
+                elif mm.state == MapperModel.SOFT and rng.random() < 0.8:
+                    src = mm.mapper
+                    eth = mm.apparent
+                elif mm.state == MapperModel.IDLE and rng.random() < 0.5:
+                    # a command may open the session while none is active (inside the domain); not always
                     op = W.OP_CHARGE
             seq = rng.randint(1, 0xFFFF)
             if op == W.OP_EMIT:
@@ -104,6 +107,8 @@ def monitor(scn, sobj, rep, sf, ck):
         judged += 1
         cls = "%s/%s" % (before if before != "active" else
                          ("active-same" if fr[24:30] == active_before else "active-other"), exp)
+        if before == MapperModel.SOFT and fr[6:12] != fr[24:30]:
+            rep.count("discover_judged:opened-by-command-bridged")
         kinds.add(cls)
         rep.count("discover_judged:" + cls)
         if got != exp:
@@ -135,9 +140,10 @@ def run(ctx):
     scns = make_scenarios(ctx, ctx.n(1500, 30000), 60)
     run_monitored(ctx, binary, scns, monitor, tag="hist")
     rep.need("discovers_judged", rep.counters.get("discovers_judged", 0), 1000)
-    for cls in ("idle/hello", "active-same/hello", "active-other/silence"):
+    for cls in ("idle/hello", "active-same/hello", "active-other/silence", "opened-by-command/hello"):
         rep.need("class:" + cls, rep.counters.get("discover_judged:" + cls, 0), 50)
     rep.need("foreign_service_frames", rep.counters.get("foreign_service_frames", 0), 1000)
+    rep.need("opened-by-command-bridged", rep.counters.get("discover_judged:opened-by-command-bridged", 0), 20)
     # exhaustive single-step sweep (online oracle in C)
     sweeps.run_sweep(ctx, "c05", [], "C05")
     rep.exhaustive = False   # histories are sampled; the step sweep part is exhaustive (see observed.sweep_*)
